@@ -66,6 +66,37 @@ def statement(ctx, rows_in, out, err, form):
     return True
 
 
+def plain_list_form(ctx, rows, batch_size):
+    """`output_dict=False` (the default of the public API): a list with one entry per input row, entry i being the
+    `reaction` value of row i of the dictionary form"""
+    import copy
+
+    from synrbl import Balancer
+
+    data = [{"reaction": x, "tag": i} for i, x in enumerate(rows)]
+    try:
+        full = Balancer(n_jobs=1, batch_size=batch_size).rebalance(copy.deepcopy(data), output_dict=True)
+        plain = Balancer(n_jobs=1, batch_size=batch_size).rebalance(copy.deepcopy(data))
+        err = None
+    except Exception as e:
+        full, plain, err = None, None, "%s: %s" % (type(e).__name__, e)
+    ctx.case(("plain-list", json.dumps([describe(x) for x in rows]), batch_size), nontrivial=True)
+    ctx.count("form:plain-list-return")
+    wit = {"form": "output_dict=False", "rows": [describe(x) for x in rows], "batch_size": batch_size}
+    if err is not None or plain is None or len(plain) != len(rows):
+        ctx.violation("row-count-differs-from-input", wit, "error=%s returned=%s entries" % (err, None if plain is None else len(plain)),
+                      "synrbl/balancing.py:rebalance")
+        return False
+    for i, (p, r) in enumerate(zip(plain, full)):
+        want = r.get("reaction")
+        same = p == want or (isinstance(p, float) and isinstance(want, float) and math.isnan(p) and math.isnan(want))
+        if not same:
+            ctx.violation("row-does-not-describe-its-input", dict(wit, position=i), "entry %r, the dictionary form has %r" % (p, want),
+                          "synrbl/balancing.py:rebalance")
+            return False
+    return True
+
+
 def run_list(rows, batch_size, as_dict, ids=None, cols=None):
     import copy
 
@@ -201,13 +232,15 @@ def ragged_csv_case(ctx, tmp):
         ("CCO>>CC=O", ["t1"]),  # trailing field missing
         ("CC>>CC", ["t2", "a", "comment with, a comma"]),  # one field too many
         ("xx>>C", []),  # only the reaction
+        (None, []),  # a completely empty record: still one input row (a row without a reaction)
         ("CC(=O)C>>CC(O)C", ["t4", "last"]),
+        (None, []),
     ]
     path = os.path.join(tmp, "ragged.csv")
     with open(path, "w", newline="") as f:
         f.write("reaction,tag,comment\n")
         for rx, rest in lines:
-            f.write(",".join([rx] + rest) + "\n")
+            f.write(("" if rx is None else ",".join([rx] + rest)) + "\n")
     rows = [rx for rx, _ in lines]
     for bs in (None, 2):
         try:
@@ -259,6 +292,8 @@ def explore(ctx, seqs, stop_on_first=False):
             out, err = run_list(rows, bs, as_dict=True)
             if not statement(ctx, rows, out, err, "dict") and stop_on_first:
                 return
+        if not plain_list_form(ctx, rows, ctx.rng.choice([None, 2])) and stop_on_first:
+            return
         # caller-chosen column names (a configuration), with and without the caller's own ids in the id column
         bs = ctx.rng.choice([None, 1, 2, n])
         out, err = run_list(rows, bs, as_dict=True, cols=("rxn", "rid"))
